@@ -23,8 +23,24 @@ class PathCache:
 
 
 def static_callees(prog, eff, fname):
-    """internal (static) functions reachable from fname through direct calls, excluding recursive ones:
-    implementation details that may be inlined so that extract-/inline-helper refactorings do not change a verdict"""
+    """internal (static) functions reachable from fname through direct calls, excluding those that are recursive
+    without passing through fname: implementation details that may be inlined so that extract-/inline-helper
+    refactorings do not change a verdict.  A helper that calls fname back (an arm of a recursive function moved into
+    a helper) is inlined; the call back to fname inside it stays an opaque call."""
+    def reaches_itself_avoiding(c):
+        seen = set()
+        stack = [c]
+        while stack:
+            x = stack.pop()
+            for d in eff.summ[x]["callees"]:
+                if d == fname:
+                    continue
+                if d == c:
+                    return True
+                if d not in seen and d in eff.summ:
+                    seen.add(d)
+                    stack.append(d)
+        return False
     out = set()
     stack = [fname]
     while stack:
@@ -32,7 +48,7 @@ def static_callees(prog, eff, fname):
         for c in eff.summ[x]["callees"]:
             g = prog.funcs.get(c)
             if g is not None and g.internal and c not in out and c != fname:
-                if c in eff.transitive_callees(c):
+                if reaches_itself_avoiding(c):
                     continue   # recursive helper: not inlined
                 out.add(c)
                 stack.append(c)
@@ -225,6 +241,13 @@ def refcount_delta(rc_off, e):
                 return 1
             if c[1] == (1 << 64) - 1:
                 return -1
+    if isinstance(v, tuple) and v[0] == "op" and v[1] == "sub":
+        o, c = v[3], v[4]
+        if is_const(c) and isinstance(o, tuple) and o[0] == "ld" and o[1] == b and o[2] == rc_off:
+            if c[1] == 1:
+                return -1
+            if c[1] == (1 << 64) - 1:
+                return 1
     return None
 
 
